@@ -175,20 +175,23 @@ def check_zigzag_enc(F, fn):
         raise No("return type %s does not match %s" % (fn.locals[0]["ty"], fn.locals[1]["ty"]))
     eng = _engine(F, 3)
     fps = _feasible_paths(eng, fn)
-    if len(fps) != 1:
-        raise No("expected one feasible path, found %d" % len(fps))
-    p, b = fps[0]
-    _no_panics(p, b, fn.name)
-    n = b.rows(("param", 1, fn.locals[1]["ty"]))
-    try:
-        got = b.rows(p.ret)
-    except Top as e:
-        raise No("result not bit-affine: %s (%s)" % (sym.show(p.ret), e))
-    exp = [n[N - 1]] + [n[i - 1] ^ n[N - 1] for i in range(1, N)]
-    if not b.equal_rows(got, exp):
-        bad = [i for i in range(N) if b.reduce(got[i] ^ exp[i]) != 0]
-        raise No("not the zig-zag map (n<<1)^(n>>%d): result bit %d is %s, expected %s" % (
-            N - 1, bad[0], b.describe(got[bad[0]]), b.describe(exp[bad[0]])))
+    if not fps:
+        raise No("no feasible path")
+    # every feasible path (e.g. the two arms of `if n < 0`) must compute the specification map under its own condition
+    for p, b in fps:
+        if p.status != "return":
+            raise No("a path ends in %s" % p.status)
+        _no_panics(p, b, fn.name)
+        n = b.rows(("param", 1, fn.locals[1]["ty"]))
+        try:
+            got = b.rows(p.ret)
+        except Top as e:
+            raise No("result not bit-affine: %s (%s)" % (sym.show(p.ret), e))
+        exp = [n[N - 1]] + [n[i - 1] ^ n[N - 1] for i in range(1, N)]
+        if not b.equal_rows(got, exp):
+            bad = [i for i in range(N) if b.reduce(got[i] ^ exp[i]) != 0]
+            raise No("not the zig-zag map (n<<1)^(n>>%d): result bit %d is %s, expected %s" % (
+                N - 1, bad[0], b.describe(got[bad[0]]), b.describe(exp[bad[0]])))
     return {"N": N}
 
 
@@ -200,20 +203,22 @@ def check_zigzag_dec(F, fn):
         raise No("return type %s does not match %s" % (fn.locals[0]["ty"], fn.locals[1]["ty"]))
     eng = _engine(F, 3)
     fps = _feasible_paths(eng, fn)
-    if len(fps) != 1:
-        raise No("expected one feasible path, found %d" % len(fps))
-    p, b = fps[0]
-    _no_panics(p, b, fn.name)
-    u = b.rows(("param", 1, fn.locals[1]["ty"]))
-    try:
-        got = b.rows(p.ret)
-    except Top as e:
-        raise No("result not bit-affine: %s (%s)" % (sym.show(p.ret), e))
-    exp = [u[i + 1] ^ u[0] for i in range(N - 1)] + [u[0]]
-    if not b.equal_rows(got, exp):
-        bad = [i for i in range(N) if b.reduce(got[i] ^ exp[i]) != 0]
-        raise No("not the inverse zig-zag map (u>>1)^-(u&1): result bit %d is %s, expected %s" % (
-            bad[0], b.describe(got[bad[0]]), b.describe(exp[bad[0]])))
+    if not fps:
+        raise No("no feasible path")
+    for p, b in fps:
+        if p.status != "return":
+            raise No("a path ends in %s" % p.status)
+        _no_panics(p, b, fn.name)
+        u = b.rows(("param", 1, fn.locals[1]["ty"]))
+        try:
+            got = b.rows(p.ret)
+        except Top as e:
+            raise No("result not bit-affine: %s (%s)" % (sym.show(p.ret), e))
+        exp = [u[i + 1] ^ u[0] for i in range(N - 1)] + [u[0]]
+        if not b.equal_rows(got, exp):
+            bad = [i for i in range(N) if b.reduce(got[i] ^ exp[i]) != 0]
+            raise No("not the inverse zig-zag map (u>>1)^-(u&1): result bit %d is %s, expected %s" % (
+                bad[0], b.describe(got[bad[0]]), b.describe(exp[bad[0]])))
     return {"N": N}
 
 
@@ -292,7 +297,7 @@ def check_reader(F, fn, N, src=POP, value_of_ret=None):
         ret = p.ret
         if tags[-1] == 1:
             # byte source failed: must be propagated unchanged
-            if not (ret[0] == "err_from" and ret[1] == pops[-1]["result"]):
+            if not (ret[0] == "err_from" and ret[1] == pops[-1]["result"]) and not _propagates(ret, pops[-1]["result"]):
                 raise No("a failing byte source is not propagated unchanged (returns %s)" % sym.show(ret))
             classes.add(("E", j))
             continue
@@ -346,13 +351,27 @@ def check_reader(F, fn, N, src=POP, value_of_ret=None):
                     raise No("rejects a %d-byte encoding whose last group may fit in %d bits" % (K, klast))
                 classes.add(("B", j))
             else:
-                raise No("rejection after %d bytes does not depend on the continuation bit" % j)
+                # one test for both reasons (`last > max_of_last_byte` with max < 0x80): the path must exclude every acceptable last byte,
+                # i.e. know that the continuation bit or one of the excess payload bits is set
+                if b.all_zero(bytes_[j - 1][min(klast, 7):8]) is not False:
+                    raise No("rejects a %d-byte encoding that may be a valid one (continuation clear and last group within %d bits)" % (K, klast))
+                classes.add(("C", j))
+                classes.add(("B", j))
     want = set([("A", j) for j in range(1, K + 1)] + [("E", j) for j in range(1, K + 1)] + [("C", K)])
     if klast < 7:
         want.add(("B", K))
+    else:
+        classes.discard(("B", K))
     if classes != want:
         raise No("path classes %s differ from the specification's %s" % (sorted(classes ^ want), "accept/err/overlong set"))
     return {"N": N, "K": K, "paths": len(fps)}
+
+
+def _propagates(ret, result):
+    import summ2
+    from tbl import norm
+    src = summ2.err_source(ret)
+    return src is not None and norm(src) == norm(result)
 
 
 def is_helper(fn):
